@@ -2,6 +2,7 @@
 namespace Larking.Expected.C06
 
 def conds_streamHTTP_readMsg : List String := [
+   "func (*streamHTTP) readMsg(c Codec, b []byte) (int, []byte, error)",
    "if s.rEOF",
    "return s.recvCount, nil, io.EOF",
    "if s.method.desc.IsStreamingClient()",
@@ -17,6 +18,7 @@ def conds_streamHTTP_readMsg : List String := [
   ]
 
 def conds_streamHTTP_RecvMsg : List String := [
+   "func (*streamHTTP) RecvMsg(m interface{}) error",
    "if s.method.hasBody && s.hasBody",
    "if err != nil",
    "return err",
@@ -30,6 +32,7 @@ def conds_streamHTTP_RecvMsg : List String := [
   ]
 
 def conds_streamHTTP_decodeRequestArgs : List String := [
+   "func (*streamHTTP) decodeRequestArgs(args proto.Message) (int, error)",
    "defer func() { if cap(b) < s.opts.maxReceiveMessageSize { *bytes = b bytesPool.Put(bytes) } }()",
    "if cap(b) < s.opts.maxReceiveMessageSize",
    "if err != nil",
@@ -46,6 +49,7 @@ def conds_streamHTTP_decodeRequestArgs : List String := [
   ]
 
 def conds_streamGRPC_RecvMsg : List String := [
+   "func (*streamGRPC) RecvMsg(m interface{}) error",
    "defer s.wg.Done()",
    "if err := s.isDone(); err != nil",
    "return err",
@@ -75,6 +79,7 @@ def conds_streamGRPC_RecvMsg : List String := [
   ]
 
 def conds_streamGRPC_SendMsg : List String := [
+   "func (*streamGRPC) SendMsg(m interface{}) error",
    "defer s.wg.Done()",
    "if err := s.isDone(); err != nil",
    "return err",
@@ -101,6 +106,7 @@ def conds_streamGRPC_SendMsg : List String := [
   ]
 
 def conds_webWriter_writeTrailer : List String := [
+   "func (*webWriter) writeTrailer() error",
    "range hdr",
    "if w.seenHeaders[key]",
    "if err := tr.Write(&buf); err != nil",
@@ -113,6 +119,7 @@ def conds_webWriter_writeTrailer : List String := [
   ]
 
 def conds_webWriter_flushWithTrailer : List String := [
+   "func (*webWriter) flushWithTrailer()",
    "if w.wroteHeader || w.wroteResp",
    "if err := w.writeTrailer(); err != nil",
    "return",
@@ -122,6 +129,7 @@ def conds_webWriter_flushWithTrailer : List String := [
   ]
 
 def conds_streamWS_RecvMsg : List String := [
+   "func (*streamWS) RecvMsg(m interface{}) error",
    "if s.method.hasBody",
    "if err != nil",
    "return err",
@@ -139,6 +147,7 @@ def conds_streamWS_RecvMsg : List String := [
   ]
 
 def conds_streamWS_SendMsg : List String := [
+   "func (*streamWS) SendMsg(v interface{}) error",
    "if err != nil",
    "return err",
    "if err != nil",
@@ -150,6 +159,7 @@ def conds_streamWS_SendMsg : List String := [
   ]
 
 def conds_CodecProto_ReadNext : List String := [
+   "func (CodecProto) ReadNext(b []byte, r io.Reader, limit int) ([]byte, int, error)",
    "for i := 0; i < binary.MaxVarintLen64; i++",
    "for i >= len(b)",
    "if len(b) == cap(b)",
@@ -170,6 +180,7 @@ def conds_CodecProto_ReadNext : List String := [
   ]
 
 def conds_CodecJSON_ReadNext : List String := [
+   "func (CodecJSON) ReadNext(b []byte, r io.Reader, limit int) ([]byte, int, error)",
    "for i := 0; i < int(limit); i++",
    "for i >= len(b)",
    "if len(b) == cap(b)",
@@ -194,6 +205,7 @@ def conds_CodecJSON_ReadNext : List String := [
   ]
 
 def conds_codecHTTPBody_ReadNext : List String := [
+   "func (codecHTTPBody) ReadNext(b []byte, r io.Reader, limit int) ([]byte, int, error)",
    "for total < limit",
    "if len(b) == cap(b)",
    "if err == io.EOF && total > limit",
